@@ -323,7 +323,7 @@ def check_capture(ctx):
     full_iter = 'list(' + g.params[0] + ')' in src(it)
     ctx.info['_group_iterates_all_children'] = full_iter
     some = ME.AbsToken(repo, TT(('Name',)), KD.GENERIC)
-    guarded, gdetail = driver_excludes_delimiters(ctx, g)
+    guarded, gdetail = driver_simulation(ctx, g)
     ctx.info['_group_excludes_own_delimiters'] = gdetail
     for cl in clients:
         loc = f'{cl.f.mod.relpath}:{cl.call.lineno}'
@@ -344,6 +344,97 @@ def check_capture(ctx):
                        f'{which}({ch!r}) is True and post keeps that operand: inside a {"Parenthesis" if ch in "()" else "SquareBrackets"} whose '
                        f'{"first" if side == "left" else "last"} inner token is the middle token, the pass groups the delimiter away and the node no longer '
                        f'{"starts" if side == "left" else "ends"} with {ch!r}')
+
+
+def driver_simulation(ctx, g, rid='R9.5'):
+    """What _group does with the delimiters of the list it runs on, decided by interpreting it (and TokenList.group_tokens, token_next,
+    token_prev ...) on small bracketed groups with synthetic passes: the middle token `::` directly behind the opener / in front of
+    the closer, operand tests that accept anything, and the three kinds of `post` the passes use (take both neighbours, only the
+    left one, only the right one).  Returns ({'left': bool, 'right': bool}, description) and records the obligations:
+    a delimiter is never taken into a new group; a neighbour that is only looked at may be a delimiter (the pass still groups)."""
+    repo = ctx.repo
+    P, NAME, OPR, WSP, CMT, KW = TT(('Punctuation',)), TT(('Name',)), TT(('Operator',)), TT(('Text', 'Whitespace')), TT(('Comment', 'Multiline')), TT(('Keyword',))
+    ident = repo.classes.get('sqlparse.sql.Identifier')
+    stmt = repo.classes.get('sqlparse.sql.Statement')
+    comment = repo.classes.get('sqlparse.sql.Comment')
+    kinds = []
+    for cname, (o, c_) in (('Parenthesis', ((P, '('), (P, ')'))), ('SquareBrackets', ((P, '['), (P, ']'))), ('Case', ((KW, 'case'), (KW, 'end'))),
+                           ('If', ((KW, 'if'), (KW, 'end if'))), ('For', ((KW, 'for'), (KW, 'end loop'))), ('Begin', ((KW, 'begin'), (KW, 'end')))):
+        cl = repo.classes.get(f'sqlparse.sql.{cname}')
+        if cl is not None:
+            kinds.append((cl, o, c_))
+    ctx.need(ident is not None and stmt is not None and comment is not None and len(kinds) >= 2, 'sqlparse.sql group classes not found')
+    loc = f'{g.mod.relpath}:{g.node.lineno}'
+
+    def leaf(tt, v):
+        t_ = ME.AbsToken(repo, ttype=tt, value=v)
+        t_.parent = None
+        return t_
+
+    def group(cls, kids):
+        gr = ME.AbsToken(repo, cls=cls)
+        gr.tokens, gr.parent, gr.is_whitespace = kids, None, False
+        gr.value = ''.join(k.value for k in kids)
+        for k in kids:
+            k.parent = gr
+        return gr
+
+    def show(t):
+        return (t.cls.name + '[' + ' '.join(show(k) for k in t.tokens) + ']') if t.is_group else t.value
+    posts = {'both': lambda tl, p_, t_, n_: (p_, n_), 'left': lambda tl, p_, t_, n_: (p_, t_), 'right': lambda tl, p_, t_, n_: (t_, n_)}
+    params = g.params
+    absorbed = {'left': [], 'right': []}
+    blocked = []
+    n = 0
+    for cl, o, c_ in kinds:
+        for inner, side in ((['m', 'x'], 'left'), (['x', 'm'], 'right'), (['x', 'm', 'x'], None), (['m'], 'both')):
+            for trailing in (False, True):
+                for pname, post in posts.items():
+                    opener, closer = leaf(*o), leaf(*c_)
+                    kids = [opener] + [leaf(OPR, '::') if k == 'm' else leaf(NAME, 'x') for k in inner] + [closer]
+                    if trailing:
+                        kids += [leaf(WSP, ' '), group(comment, [leaf(CMT, '/*c*/')])]
+                    grp = group(cl, kids)
+                    st = group(stmt, [grp])
+                    mid = next(k for k in kids if k.ttype is not None and k.value == '::')
+                    ev = ME.Evaluator(ctx, g.mod, None)
+                    ev.effects = True
+                    env = {params[0]: st, params[1]: ClsRef(ident), params[2]: (lambda t: t is mid), params[3]: (lambda t: t is not None),
+                           params[4]: (lambda t: t is not None), params[5]: post}
+                    for p_, d_ in zip(g.params[len(g.params) - len(g.node.args.defaults):], g.node.args.defaults):
+                        env.setdefault(p_, ev.ev(d_, {}))
+                    before = show(st)
+                    try:
+                        ME.run_function(ev, g.node, env, max_steps=2000)
+                    except (ME.Unsupported, ME.Unknown) as e:
+                        ctx.ob(rid, 'driver:simulation', loc, '_group is evaluable on small bracketed groups', None, f'{before}: {e}')
+                        return {}, 'not evaluable'
+                    except ME.Crash as e:
+                        ctx.ob(rid, f'driver:crash:{cl.name}', loc, '_group runs on small bracketed groups', False, f'{before} with post={pname}: {e}')
+                        continue
+                    n += 1
+                    after = show(st)
+                    if grp.tokens[0] is not opener:
+                        absorbed['left'].append(f'{before} -> {after} (post takes {pname})')
+                    if not any(k is closer for k in grp.tokens):
+                        absorbed['right'].append(f'{before} -> {after} (post takes {pname})')
+                    # the neighbours the post takes are no delimiters -> the pass must still group
+                    takes_left = pname in ('both', 'left')
+                    takes_right = pname in ('both', 'right')
+                    i = inner.index('m')
+                    left_is_delim = i == 0
+                    right_is_delim = i == len(inner) - 1
+                    should_group = not (takes_left and left_is_delim) and not (takes_right and right_is_delim)
+                    grouped = mid.parent is not grp
+                    if should_group and not grouped:
+                        blocked.append(f'{before} stays ungrouped although post takes only the {pname} neighbour(s), none of them a delimiter')
+    ctx.ob(rid, 'driver:opener-kept', loc, f'_group never takes the opening token of the list it runs on into a new group ({n} runs interpreted)', not absorbed['left'],
+           f'{len(absorbed["left"])} run(s), e.g. {absorbed["left"][:2]}')
+    ctx.ob(rid, 'driver:closer-kept', loc, '_group never takes the closing token of the list it runs on into a new group (also with a comment attached behind it)',
+           not absorbed['right'], f'{len(absorbed["right"])} run(s), e.g. {absorbed["right"][:2]}')
+    ctx.ob(rid, 'driver:only-taken-neighbours-matter', loc, 'a delimiter that a pass only looks at (its post does not take it) does not keep the pass from grouping', not blocked,
+           f'{len(blocked)} run(s), e.g. {blocked[:2]}: e.g. a typed literal or an array index directly behind "(" / in front of ")" is no longer grouped')
+    return {'left': not absorbed['left'], 'right': not absorbed['right']}, f'{n} interpreted runs; absorbed: {{k: len(v) for k, v in absorbed.items()}}'
 
 
 def driver_excludes_delimiters(ctx, g):
